@@ -87,6 +87,15 @@ def generate(rng, tier):
         remaining -= 1
     return {"helper": helper, "kw": kw, "kind": kind, "rows": rows, "vector_empty": rng.random() < 0.04}
 
+_HELPER_OBJECTS = {}
+
+def _shorthand(di, helper, args, kws):
+    """Shorthand helper objects are reused across cases (frames of other dtypes) within a worker, as a user's dict of summaries would be."""
+    key = (helper, repr(args), repr(sorted(kws.items())))
+    if key not in _HELPER_OBJECTS:
+        _HELPER_OBJECTS[key] = getattr(di, helper)("x", *args, **kws)
+    return _HELPER_OBJECTS[key]
+
 def _call_args(helper, kw):
     kws = dict(kw)
     args = []
@@ -164,11 +173,11 @@ def execute(case):
         # the same aggregate() call goes on with order-sensitive helpers on the same column: one helper must not disturb the next
         trailers = {"z_first": ("first", {}), "z_last": ("last", {}), "z_nth": ("nth", {"index": 1}), "z_mode": ("mode", {}), "z_count": ("count", {})}
     try:
-        short = f("x", *args, **kws)
+        short = _shorthand(di, helper, args, kws)
         extra = {}
         for name, (h, hkw) in trailers.items():
             a2, k2 = _call_args(h, hkw)
-            extra[name] = getattr(di, h)("x", *a2, **k2)
+            extra[name] = _shorthand(di, h, a2, k2)
         out = df.group_by("g").aggregate(y=short, **extra)
     except Exception as e:
         res.violate(f"{helper}:groupwise:raised:{exc_name(e)}:{kind}", f"aggregate(y=di.{helper}('x')) raised {e!r}; {ctx}")
